@@ -615,6 +615,10 @@ type violation struct {
 
 var failRe = regexp.MustCompile(`ZZ-ASSERT-FAILED|ZZ-PANIC|ZZ-HANG|panic:|fatal error:`)
 
+// replayBudget bounds the total number of repeated native runs of one check (a change that
+// makes every path fail must not turn the check into hours of replays).
+var replayBudget = 40
+
 // replayOne writes the model and runs the native twin of the harness.
 func replayOne(v *violation, prop string, h HarnessPlan, params map[string]int, files map[string]string, workDir string) {
 	sum := sha1.Sum([]byte(h.Name + v.Finding.Kind + v.Finding.Msg))
@@ -663,8 +667,11 @@ func replayOne(v *violation, prop string, h HarnessPlan, params map[string]int, 
 		if err != nil {
 			break
 		}
-		if attempt == 0 && time.Since(t0) < 10*time.Second {
+		if attempt == 0 && time.Since(t0) < 10*time.Second && replayBudget > 0 {
 			attempts = 8 // cheap run: a 50 % native race is then missed with probability < 1 %
+		}
+		if attempt > 0 {
+			replayBudget--
 		}
 	}
 	os.WriteFile(filepath.Join(dir, "replay.log"), out, 0o644)
